@@ -54,6 +54,10 @@ CHECKS = {
  "C28": ("exploration", "runtime monitor: statement predicate vs real validation over boundary ladders; accepted-size boundary sweep",
          "Part A compares err!=nil of Set/Delete/Get with the statement's predicate over key/value/namespace boundary ladders on disk, in-memory and namespace configurations and checks that rejected calls leave the transaction unaffected; part B sweeps every accounted size in the last 64 bytes below the largest accepted transaction (n=1..12 entries, 3 memtable sizes, small and 19-digit commit timestamps) and the last counts below the count limit: Commit must not return ErrTxnTooBig.",
          "Ladders, not all sizes; memtable 8 MiB in part A so single writes fit.", "4/C28"),
+
+ "C12": ("exploration", "deterministic flush/compaction driver on production pickers + read-invariance oracle against the MVCC model after every step",
+         "No background compactors; PRNG-chosen sequences of commits, flushes, production-picker compactions (as compactor 0/1/2), forced level compactions, back-dated L0->L0, Lmax->Lmax rewrite, snapshots and SetDiscardTs over 6 option sets, normal and managed; after every flush/compaction all keys are read now, through every open snapshot and at sampled managed timestamps >= discardTs and compared with the model; targeted L0->L0 (older oversized table left out) and Lmax->Lmax (>10 MiB stale) families.",
+         "Sequential driver (concurrent compactions covered by C01/C05 background histories); GC excluded (C15); table ages are back-dated through a verif-only export.", "4/C12"),
 }
 
 def hooks_commits():
